@@ -568,8 +568,12 @@ def _make_epc_qr_data(name, iban, amount, text=None, reference=None, bic=None,
         raise ValueError(f'Invalid BIC, should be 8 or 11 characters long, got "{bic}"')
     if purpose and len(purpose) != 4:
         raise ValueError(f'Invalid purpose, 4 characters are allowed, got "{purpose}"')
-    amount = decimal.Decimal(amount)
-    if not min_amount <= amount <= max_amount:
+    try:
+        amount = decimal.Decimal(amount)
+        in_range = min_amount <= amount <= max_amount
+    except decimal.InvalidOperation:  # Not a number / NaN
+        in_range = False
+    if not in_range:
         raise ValueError(f'Invalid amount, must be in bigger or equal {min_amount} and less or equal {max_amount}')
     tmp_data = ['BCD',  # Service tag
                 '002',  # Version
